@@ -68,10 +68,10 @@ Proof. intros [Hleg Hn Hidx Htid Hbeg Hoff Hc] Hcnt Hg. pose proof Hg as (G1 & G
 Section Excl.
 Variables (m : mode) (rv : Z -> Z -> list Z -> Z).
 
-Lemma excl_offer n off x msg : xinv n off x -> n < two31 - 1 -> off <= l_tlen (xlog x) ->
+Lemma excl_offer n off x msg : xinv n off x -> off <= l_tlen (xlog x) ->
   zlen msg <= 1073741824 -> l_mtu (xlog x) mod 32 = 0 ->
   append_effect exclusive xinv x n off (offer_laid (xlog x) msg) (xpub_step m rv x (Offer msg)).
-Proof. intros [Hinv Hxo] Hlast Hofft Hlen Hm32.
+Proof. intros [Hinv Hxo] Hofft Hlen Hm32.
   pose proof Hinv as [Hleg Hn Hidx Htid Hbeg Hoff Hcount].
   pose proof (legal_mpl _ Hleg) as (Hm1 & Hm2 & Hm3 & Hm4). pose proof (legal_tlen _ Hleg) as [Htl _].
   pose proof (mod3_range n) as Hm3r. pose proof (zlen_nonneg msg) as H0.
@@ -129,11 +129,21 @@ Proof. intros [Hinv Hxo] Hlast Hofft Hlen Hm32.
       rewrite ?Hbeg, ?Hxo in *; try eassumption; try lia.
     + reflexivity.
     + split; [exact Hinv'|reflexivity].
-  - lia. Qed.
-Lemma excl_claim n off x len : xinv n off x -> n < two31 - 1 -> off <= l_tlen (xlog x) ->
+  - (* the very last term *)
+    destruct Hreq as [Hreq | Hreq]; [|congruence].
+    destruct (xtry_result_inv x n _ _ _ _ _ Hinv Hreq T) as (Hsg & Hl' & _ & Hdisj).
+    match type of T with xtry_result _ _ _ _ _ (?x', _) =>
+      assert (Hinv' : xpub_inv n x') by (destruct Hdisj as [Hsm | (_ & A & _)]; [rewrite Hsm; exact Hinv|exact A]) end.
+    rewrite Hxo, Hidx, Htid in *.
+    destruct (xbumped_parts (xlog x) n (wrap32 (l_init (xlog x) + n)) off (op_required (xlog x) (Offer msg)) ltac:(lia)) as (B3 & B4).
+    eapply AE_last with (req := op_required (xlog x) (Offer msg)); unfold plog, xspec_pos in *; cbn [fl_pub exclusive x_pub ps_log ps_claim ps_closed] in *;
+      rewrite ?Hbeg, ?Hxo in *; try eassumption; try lia.
+    + reflexivity.
+    + split; [exact Hinv'|reflexivity]. Qed.
+Lemma excl_claim n off x len : xinv n off x -> off <= l_tlen (xlog x) ->
   0 <= len <= 1073741824 ->
   append_effect exclusive xinv x n off (claim_laid (xlog x) n off len) (xpub_step m rv x (Claim len)).
-Proof. intros [Hinv Hxo] Hlast Hofft Hlen.
+Proof. intros [Hinv Hxo] Hofft Hlen.
   pose proof Hinv as [Hleg Hn Hidx Htid Hbeg Hoff Hcount].
   pose proof (legal_mpl _ Hleg) as (Hm1 & Hm2 & Hm3 & Hm4). pose proof (legal_tlen _ Hleg) as [Htl _].
   pose proof (mod3_range n) as Hm3r.
@@ -180,7 +190,17 @@ Proof. intros [Hinv Hxo] Hlast Hofft Hlen.
       rewrite ?Hbeg, ?Hxo in *; try eassumption; try lia.
     + reflexivity.
     + split; [exact Hinv'|reflexivity].
-  - lia. Qed.
+  - (* the very last term *)
+    destruct Hreq as [Hreq | Hreq]; [|congruence].
+    destruct (xtry_result_inv x n _ _ _ _ _ Hinv Hreq T) as (Hsg & Hl' & _ & Hdisj).
+    match type of T with xtry_result _ _ _ _ _ (?x', _) =>
+      assert (Hinv' : xpub_inv n x') by (destruct Hdisj as [Hsm | (_ & A & _)]; [rewrite Hsm; exact Hinv|exact A]) end.
+    rewrite Hxo, Hidx, Htid in *.
+    destruct (xbumped_parts (xlog x) n (wrap32 (l_init (xlog x) + n)) off (op_required (xlog x) (Claim len)) ltac:(lia)) as (B3 & B4).
+    eapply AE_last with (req := op_required (xlog x) (Claim len)); unfold plog, xspec_pos in *; cbn [fl_pub exclusive x_pub ps_log ps_claim ps_closed] in *;
+      rewrite ?Hbeg, ?Hxo in *; try eassumption; try lia.
+    + reflexivity.
+    + split; [exact Hinv'|reflexivity]. Qed.
 End Excl.
 
 Theorem exclusive_flavour_ok : flavour_ok exclusive xinv.
